@@ -37,6 +37,17 @@ def node_pos2(p0='dp0', /, a='da', *va):
   return vfx.rec('node_pos2', locals())
 
 
+def mutator(x=None, y=None):
+  """Modifies the containers it receives in place (like a __post_init__ that
+  sorts / extends its fields)."""
+  for v in (x, y):
+    if isinstance(v, list):
+      v.append('MUTATED-BY-CALLABLE')
+    elif isinstance(v, dict):
+      v['MUTATED-BY-CALLABLE'] = 1
+  return vfx.rec('mutator', locals())
+
+
 def node_mut(x=None, y=(1, 2)):
   return vfx.rec('node_mut', locals())
 
